@@ -17,7 +17,7 @@ MANIFEST = {
     'technique': 'direct-recomputation oracle on the real per-cycle routines, seeded random workload',
 }
 BUDGET_S = {'quick': 60, 'thorough': 360}
-NCASES = {'quick': 3000, 'thorough': 40000}
+NCASES = {'quick': 12000, 'thorough': 100000}
 RULE = ('seeded random label vectors / monotone multi-cycle phases / phase samples; non-trivial = at least one cycle (or one '
         'non-empty bin); distinct by sha1 of the inputs')
 ASSUMPTIONS = ['label vectors use consecutive labels 0..K-1 (what the library itself produces); a label without samples is not generated']
